@@ -361,4 +361,6 @@ func rulesC09(e *Engine, r *Report) {
 	// ---------------------------------------------------------------- R09.13
 	r.Rule("R09.13", "the record of a file is not shared with a file of another name: same check as R01.16 (a file called `x.cmp` must not be recorded in the companion of `x`)")
 	checkCompanionPathsExplicit(e, r, "R09.13")
+	// ---------------------------------------------------------------- R09.14
+	e.shareRule(r, "C08", "R08.6", "R09.14", "an entry of a file that failed its validation is no evidence of held parts: `part already received` is answered from the cache only for an equal-hash entry that is not failed")
 }
